@@ -4315,10 +4315,18 @@ class Device(utils.CompositeEventEmitter):
     ) -> None:
         # Create a future so that we can wait for the disconnection's result
         pending_disconnection = asyncio.get_running_loop().create_future()
-        connection.on(connection.EVENT_DISCONNECTION, pending_disconnection.set_result)
-        connection.on(
-            connection.EVENT_DISCONNECTION_FAILURE, pending_disconnection.set_exception
-        )
+
+        # The caller may have been cancelled already when the event is emitted
+        def on_disconnection(reason: int) -> None:
+            if not pending_disconnection.done():
+                pending_disconnection.set_result(reason)
+
+        def on_disconnection_failure(error: Exception) -> None:
+            if not pending_disconnection.done():
+                pending_disconnection.set_exception(error)
+
+        connection.on(connection.EVENT_DISCONNECTION, on_disconnection)
+        connection.on(connection.EVENT_DISCONNECTION_FAILURE, on_disconnection_failure)
 
         try:
             # Wait for the disconnection process to complete
@@ -4334,12 +4342,9 @@ class Device(utils.CompositeEventEmitter):
                 self, Device.EVENT_FLUSH, pending_disconnection
             )
         finally:
+            connection.remove_listener(connection.EVENT_DISCONNECTION, on_disconnection)
             connection.remove_listener(
-                connection.EVENT_DISCONNECTION, pending_disconnection.set_result
-            )
-            connection.remove_listener(
-                connection.EVENT_DISCONNECTION_FAILURE,
-                pending_disconnection.set_exception,
+                connection.EVENT_DISCONNECTION_FAILURE, on_disconnection_failure
             )
             self.disconnecting = False
 
